@@ -16,7 +16,7 @@ CONSTANTS
   Kinds = {"CreateChannel", "CloseChannelEnd", "ClaimChannelEnd", "SendItem", "AddChannelCapacity"}
   Faults = {"ends", "dropped"}
   WrongKinds = {}
-  MsgBudget = 4
+  MsgBudget = 3
   ScriptSel = "chan"
   V0 = 20
   V1 = 20
